@@ -715,6 +715,18 @@ def oracle_c04(rows, equation=True):
             if (is_refresh or is_update) and s["rc"] == [0] and not s["op"].get("outage"):
                 truth = {(t[0], t[1], t[2]): t[3] for t in s["extra"].get("truth", [])}
                 parent = s["op"]["parent"]
+                # a record of the account whose output was in the UTXO set when the refresh asked the node is
+                # still recorded afterwards (the books contain every output of the account the chain holds)
+                if k == "refresh" and s["op"].get("all") and idx > 0:
+                    pv = r["steps"][idx - 1]["snap"]
+                    had = {(o["acct"], o["child"], o["mmr"]): o for o in pv["outputs"] if o["root"] == parent}
+                    now = {(o["acct"], o["child"], o["mmr"]) for o in snap["outputs"]}
+                    for a_, c_, m_, h_ in s["op"]["view"].get("presence", []):
+                        if (a_, c_, m_) in had and (a_, c_, m_) not in now:
+                            fails.append(_fail(r, idx, "refresh at tip %s dropped the record of output %s (status %d, height %s) "
+                                                       "although the output is in the UTXO set (block %s)"
+                                               % (s["op"]["view"]["tip"], (a_, c_), had[(a_, c_, m_)]["status"],
+                                                  had[(a_, c_, m_)]["height"], h_)))
                 for o in snap["outputs"]:
                     if o["root"] != parent:
                         continue
